@@ -427,6 +427,9 @@ def run_ts_case(ctx, i):
       want_params = {'params': ref_params, OWG: ref_owg} if owg else ref_params
       d = snap_diff(snap(got_params), snap(want_params))
       ctx.check(d is None, 'ts.params_vs_optax', lambda: dict(t=t, tx=kind, diff=d))
+      # ... and in the same containers: optax.apply_updates by hand returns the pytree structure it was given
+      ctx.check(jax.tree.structure(state.params) == jax.tree.structure(old.params), 'ts.params_structure_changed',
+                lambda: dict(t=t, owg=owg, before=type(old.params).__name__, after=type(state.params).__name__))
       if owg:
         d2 = snap_diff(snap(_plain(state.params)[OWG]) if OWG in _plain(state.params) else [], snap(g_owg))
         ctx.check(d2 is None, 'ts.owg_overwrite', lambda: dict(t=t, diff=d2))
@@ -1052,6 +1055,47 @@ MECH = {'avg1': 'metric.average', 'avg2': 'metric.average:multidim', 'avg3_py': 
         'avg_bigint': 'metric.average:value_dtype_accumulation'}
 
 
+def run_metric_empty_case(ctx, i):
+  """Zero-size update() calls between real ones: the values seen are the same, so the statistic is the same (an evaluation
+  loop whose last shard is empty, a filtered batch with no survivors)."""
+  from vf import core
+  import jax.numpy as jnp
+  kind = ['avg1', 'wf1', 'avg2', 'wf2', 'acc_mc', 'acc_bin2', 'multi'][i % 7]
+  sid = (i // 7) % 4
+  n = 2 + (i // 28) % 3
+  rng = ctx.rng('metric-empty', i)
+  nprng = np.random.default_rng(rng.getrandbits(32))
+  items, thr = gen_stream(kind, nprng, n, sid)
+  comp = list(list(compositions(n))[rng.randrange(2 ** (n - 1))])
+  where = sorted(set(rng.sample(range(len(comp) + 1), rng.randint(1, len(comp) + 1))))   # positions that get an empty update before them
+  desc = dict(kind=kind, stream=sid, n=n, composition=comp, empty_before=where)
+  with ctx.case('metric_empty', i, desc, nontrivial=True):
+    metric = make_metric(kind, thr, sid)
+
+    def feed_empty():
+      kw = {}
+      for name in ('values', 'logits', 'labels'):
+        if name in items[0]:
+          a = np.asarray(items[0][name])
+          kw[name] = jnp.zeros((0,) + a.shape, a.dtype)
+      if kind != 'multi':
+        kw = {k: v for k, v in kw.items() if k in (('values',) if kind in ('avg1', 'avg2', 'wf1', 'wf2') else ('logits', 'labels'))}
+      metric.update(**kw)
+      ctx.op('metric.update(empty batch)')
+
+    pos = 0
+    for bi, b in enumerate(comp):
+      if bi in where:
+        feed_empty()
+      feed(kind, metric, items[pos:pos + b], sid, bi)
+      pos += b
+    if len(comp) in where:
+      feed_empty()
+    got = extract(kind, metric.compute())
+    bad = close(got, ref_stat(kind, items, thr), core.TOL_FORMULA)
+    ctx.check(not bad, MECH[kind].split(':')[0] + ':empty_batch_changes_result', lambda: dict(diff=bad, case=desc))
+
+
 def run_metric_case(ctx, idx, kind, sid, comp):
   from vf import core
   n = sum(comp)
@@ -1338,4 +1382,6 @@ def run(ctx):
   for idx, (kind, sid, comp) in ctx.items(cases, 'metric'):
     run_metric_case(ctx, idx, kind, sid, comp)
   ctx.exhaustive['metric.compositions_n<=%d' % N_MAX] = True
+  for i in ctx.indices(84 if quick else 336, 'metric_empty'):
+    run_metric_empty_case(ctx, i)
   ctx.extra['cpu_s.metric'] = round(time.time() - t0, 1)
